@@ -271,7 +271,10 @@ impl Check for C19 {
         let n = tier.pick(4usize, 32);
         for i in 0..n {
             if i % nshards == shard {
-                let len = [2000usize, 1023, 1500, 4000][i % 4];
+                // powers of two first: there the node count is (len + 1).next_power_of_two(), twice
+                // what a computation from len alone gives, and only a *primitive* 2n-th root tells
+                // the two apart (the search below asks for one when len is a power of two)
+                let len = [2048usize, 1024, 4096, 2000, 512, 1023, 1500, 4000][i % 8];
                 if !f(Case::RootNonce { len, key_seed: 1000 + i as u64, start: (i as u64) << 40, budget: 40_000_000 }) {
                     return;
                 }
@@ -465,7 +468,8 @@ impl Check for C19 {
                     let mut b = [0u8; 4];
                     stream.fill_bytes(&mut b);
                     let v = u32::from_le_bytes(b) as u64;
-                    if v < P && pow_mod(v, two_n) == 1 {
+                    let hit = if len.is_power_of_two() { pow_mod(v, two_n / 2) == P - 1 } else { pow_mod(v, two_n) == 1 };
+                    if v < P && hit {
                         found = Some(nonce);
                         break;
                     }
